@@ -58,6 +58,7 @@ Init == p \in {[k |-> "prog", m |-> m, a |-> a, mode |-> mode] : m \in Progs, a 
               \cup {[k |-> "expr", e |-> e] : e \in ExprTrees}
               \cup {[k |-> "badexpr", t |-> t] : t \in {"1 +", "(2", "foo(", "* 3"}}
               \cup {[k |-> "long", c |-> c] : c \in BOOLEAN}
+              \cup {[k |-> "save", m |-> m] : m \in {x \in Progs \cup DeepProgs : ~Failed(RunProgram(x, SetVar(State0, "$ARG", VTab(TStr, <<>>))))}}
 Next == UNCHANGED p
 Scenario(q) ==
   CASE q.k = "prog" -> [prop |-> "C19", key |-> q.mode, steps |-> <<[op |-> "cli", mode |-> q.mode, ast |-> q.m, text |-> Render(q.m), args |-> ArgVecs[q.a]]>>]
@@ -65,6 +66,7 @@ Scenario(q) ==
     [] q.k = "inter" -> [prop |-> "C19", key |-> "inter", steps |-> <<[op |-> "cli", mode |-> "inter", ast |-> q.m, text |-> Render(q.m) \o "\n", args |-> ArgVecs[q.a]]>>]
     [] q.k = "expr" -> [prop |-> "C19", key |-> "expr", steps |-> <<[op |-> "cli", mode |-> "expr", ast |-> q.e, text |-> RMin(q.e), args |-> <<>>]>>]
     [] q.k = "long" -> LongScenario(q.c)
+    [] q.k = "save" -> [prop |-> "C19", key |-> "save", steps |-> <<[op |-> "cli", mode |-> "save", ast |-> q.m, text |-> Render(q.m), args |-> <<>>]>>]
     [] q.k = "badexpr" -> [prop |-> "C19", key |-> "badexpr", steps |-> <<[op |-> "cli", mode |-> "expr", reject |-> TRUE, text |-> q.t, args |-> <<>>]>>]
 Emit == PrintT("@@S " \o ToJson(Scenario(p)))
 =============================================================================
